@@ -305,13 +305,47 @@ func CLI(j *job.Job, s *job.Sink) {
 			names = append(names, n)
 			fs = append(fs, file{n, t})
 		}
+		// One set in three has a module in two revisions, both named on the command line
+		// (only a module that includes nothing, see the recorded finding
+		// c05-two-revisions-share-a-submodule): the tool prints one tree per module name,
+		// and which revision that is must not vary.
+		if c%3 == 1 {
+			for _, m := range g.Mods {
+				if m.Sub || len(m.Includes) > 0 {
+					continue
+				}
+				os.Remove(filepath.Join(dir, m.Name+".yang"))
+				for k := range names {
+					if names[k] == m.Name+".yang" {
+						names = append(names[:k], names[k+1:]...)
+						fs = append(fs[:k], fs[k+1:]...)
+						break
+					}
+				}
+				m.Revs = []string{"2019-01-01"}
+				t1 := schema.Print(m)
+				m.Revs = []string{"2020-02-02"}
+				m.Body.Items = append(m.Body.Items, &schema.Item{Node: &schema.Node{Kind: "leaf", Name: "zzrev2", Type: &schema.TypeRef{Name: "int16", Scope: m.Body}}})
+				t2 := schema.Print(m)
+				for _, f := range []file{{m.Name + "@2019-01-01.yang", t1}, {m.Name + "@2020-02-02.yang", t2}} {
+					os.WriteFile(filepath.Join(dir, f.Name), []byte(f.Text), 0o644)
+					names = append(names, f.Name)
+					fs = append(fs, f)
+				}
+				s.Count("cli_sets_with_two_revisions", 1)
+				break
+			}
+		}
 		s.Current(c, fs)
 		s.Count("cli_sets", 1)
-		for _, format := range []string{"tree", "types"} {
+		for _, format := range []string{"tree", "types", "types --types_verbose", "types --types_debug"} {
 			outs := map[string]int{}
 			for k := 0; k < 10; k++ {
-				args := append([]string{"-f", format}, names...)
-				r.Shuffle(len(names), func(a, b int) { args[2+a], args[2+b] = args[2+b], args[2+a] })
+				// (format options are only known to the tool when the format is given in
+				// its long spelling)
+				fa := strings.Fields("--format=" + format)
+				args := append(fa, names...)
+				r.Shuffle(len(names), func(a, b int) { args[len(fa)+a], args[len(fa)+b] = args[len(fa)+b], args[len(fa)+a] })
 				out, over := runBounded(dir, bin, args)
 				if over != "" {
 					s.Violation(c, j.CaseID(c), "C05.cli", "cli-"+over, fmt.Sprintf("`goyang %s` %s", strings.Join(args, " "), over), fs, map[string]any{"format": format})
